@@ -99,3 +99,54 @@ package go_clipper2
 //@   expect  [closed-size] !isOpen ==> (len(result) == 0 || len(result) >= 3)
 //@   ensures [members] forall(k, 0, len(result), memberOf(result[k], path))
 //@   ensures [short] len(path) < 3 && !isOpen ==> len(result) == 0
+
+// ---------------------------------------------------------------------------------
+// C12: engine answers depend only on the paths added
+// ---------------------------------------------------------------------------------
+
+//@ func clipper64.Execute
+//@   props C12
+//@   frameonly
+//@   replaces solution
+//@   initfields clipperBase.succeeded clipperBase.fillRule clipperBase.clipType clipperBase.currentBotY clipperBase.currentLocMin clipperBase.sel clipperBase.usingPolyTree
+
+//@ func clipper64.ExecuteOC
+//@   props C12
+//@   frameonly
+//@   replaces solutionClosed solutionOpen
+//@   initfields clipperBase.succeeded clipperBase.fillRule clipperBase.clipType clipperBase.currentBotY clipperBase.currentLocMin clipperBase.sel clipperBase.usingPolyTree
+
+//@ func clipper64.ExecutePolyTree64
+//@   props C12
+//@   frameonly
+//@   replaces polytree openPaths
+//@   initfields clipperBase.succeeded clipperBase.fillRule clipperBase.clipType clipperBase.currentBotY clipperBase.currentLocMin clipperBase.sel clipperBase.usingPolyTree
+
+//@ func clipperD.Execute
+//@   props C12
+//@   frameonly
+//@   replaces solution
+//@   initfields clipperBase.succeeded clipperBase.fillRule clipperBase.clipType clipperBase.currentBotY clipperBase.currentLocMin clipperBase.sel clipperBase.usingPolyTree
+
+//@ func clipperD.ExecuteOC
+//@   props C12
+//@   frameonly
+//@   replaces solutionClosed solutionOpen
+//@   initfields clipperBase.succeeded clipperBase.fillRule clipperBase.clipType clipperBase.currentBotY clipperBase.currentLocMin clipperBase.sel clipperBase.usingPolyTree
+
+//@ func clipperD.ExecuteWithScaleFunc
+//@   props C12
+//@   frameonly
+//@   replaces solutionClosed solutionOpen
+//@   initfields clipperBase.succeeded clipperBase.fillRule clipperBase.clipType clipperBase.currentBotY clipperBase.currentLocMin clipperBase.sel clipperBase.usingPolyTree
+
+//@ func clipperD.ExecutePolyTreeD
+//@   props C12
+//@   frameonly
+//@   replaces polytree openPaths
+//@   initfields clipperBase.succeeded clipperBase.fillRule clipperBase.clipType clipperBase.currentBotY clipperBase.currentLocMin clipperBase.sel clipperBase.usingPolyTree
+
+//@ func ClipperOffset.Execute64
+//@   props C12
+//@   frameonly
+//@   replaces solution
